@@ -434,6 +434,36 @@ def X_result_storage(ctx):
            what='transactions parked behind this one are released only by remove(); without it they are never claimed again')
 
 
+def X5_claims_are_consumed(ctx):
+    """an index claimed from the dependency table (onboard cleared) must reach execution_task"""
+    for m, src in (('execute_task', 'TxDependency::remove'), ('next', 'TxDependency::next')):
+        f = sched(ctx, m)
+        bad = []
+        n = 0
+        for p in feasible(f.paths()):
+            for a in p.events:
+                if a.kind == 'atom' and a.d['term'][0] == 'discr' and a.d['term'][1][0] == 'call' \
+                        and callee_matches(a.d['term'][1][1], src) and a.d['outcome'] == 'Some':
+                    n += 1
+                    res = a.d['term'][1]
+                    i = idx_of(p, a)
+                    et = [e for e in p.events[i:] if is_call(e, 'Scheduler::execution_task') and mentions(e.d['args'][1], res)]
+                    if not et:
+                        bad.append((p, a))
+                        continue
+                    ret = [e for e in p.events if e.kind == 'ret'][0].d['value']
+                    # the produced task must not be dropped: returned as is, or re-wrapped after a Some test
+                    if m == 'execute_task' and not mentions(ret, et[0].d['result']):
+                        bad.append((p, a))
+                    if m == 'next':
+                        some = [x for x in p.events if x.kind == 'atom' and x.d['term'][0] == 'discr' and x.d['term'][1] == et[0].d['result'] and x.d['outcome'] == 'Some']
+                        if some and not mentions(ret, et[0].d['result']):
+                            bad.append((p, a))
+        ctx.ob('X5', f, f'claimed-index-reaches-execution_task', n >= 1 and not bad,
+               f'claims={n}; {len(bad)} path(s) drop a claimed index: ' + (describe(bad[0][0]) if bad else ''), site=f.loc(f.b['lo']),
+               what='the dependency table hands an index to exactly one claimer and clears onboard; if that claimer does not turn it into an execution task nobody ever will')
+
+
 def N7_rewind_under_guard(ctx):
     facts = ctx.facts
     sites = facts.callers_of(lambda c: callee_matches(c, REWIND))
@@ -670,13 +700,8 @@ def N9_incarnation(ctx):
                 tv = ret[3][0][3][0]
                 # TxVersion::new(execute_id, tx.incarnation) read after the increment
                 args = tv[2] if tv[0] == 'call' else tv[3]
-                ok = strip(args[0]) == ('arg', 2) and is_field(strip(args[1]), 'TxState.incarnation') \
-                    and idx_of(p, inc[0]) < max(i for i, e in enumerate(p.events) if e.kind == 'ret')
-                # the read of incarnation for the version must come after the write: the term is a
-                # field read; check no read-before-write by requiring the TxVersion::new call after
-                news = [e for e in p.events if is_call(e, 'TxVersion::new')]
-                if news:
-                    ok = ok and idx_of(p, news[-1]) > idx_of(p, inc[0])
+                # the version carries the NEW incarnation (the value just written)
+                ok = strip(args[0]) == ('arg', 2) and strip(args[1]) == strip(inc[0].d['value'])
             if not ok:
                 bad.append(p)
         else:
